@@ -263,6 +263,16 @@ func manyFamilies(sp *spaceCtx, thorough bool) []*h.Scaffolded {
 			add("testkeys:"+name, append([]string{}, testkeys.Load(name)...))
 		}
 		add("testkeys:20kvl10/7", thin(testkeys.Load("20kvl10"), 7, 0))
+		// more than 65535 nodes and leaves
+		{
+			var keys []string
+			for a := 0; a < 256; a++ {
+				for b := 0; b < 256; b++ {
+					keys = append(keys, string([]byte{byte(a), byte(b)}))
+				}
+			}
+			add("all-65536-two-byte-keys", keys)
+		}
 	} else {
 		add("testkeys:11vl5", append([]string{}, testkeys.Load("11vl5")...))
 		add("testkeys:300vl50", append([]string{}, testkeys.Load("300vl50")...))
@@ -506,6 +516,15 @@ func buildPhases(r *h.Run, p profile) []phase {
 					for _, o := range []h.Opt4{{D: 1, I: 0, L: 0, C: 0}, {D: 0, I: 0, L: 0, C: 1}} {
 						if p.opts != nil && !containsOpt(p.opts, o) {
 							continue
+						}
+						// long variable-width values on the same family
+						ul := &inputSpec{sc: f, opts: []h.Opt4{o}, insts: p.insts, encs: []string{"String16L"}, tag: "long-values"}
+						ul.explicitIDs = runLengthIDs(len(f.Keys), 2)
+						if p.needQs {
+							ul.qs = manyQueries(f.Keys)
+						}
+						if len(f.Keys) <= 2500 && !emit(ul) {
+							return
 						}
 						u := &inputSpec{sc: f, opts: []h.Opt4{o}, insts: p.insts, encs: []string{"VarEnc"}, tag: "holes"}
 						ids := make([]int, len(f.Keys))
